@@ -16,7 +16,7 @@ func propC20() Property {
 		ID: "C20",
 		Explanation: "R1: every Heartbeat(0) that carries TestReqID(112) takes it from field 112 of the inbound message it replies to; the TestRequest(1) the engine sends carries a TestReqID. R2: every path that reports a successful send re-arms the heartbeat timer with HeartBtInt after the channel send; every re-arm of the peer timer uses 1.2 × HeartBtInt. " +
 			"R3 (timeout table, per-path effect traces): in-session NeedHeartbeat → send Heartbeat, state unchanged; PeerTimeout → send TestRequest, re-arm peer timer, next state wraps the current one as pending; pending: PeerTimeout → latent (disconnect), anything else → unchanged and nothing sent. " +
-			"R4: the pending wrapper is transparent for inbound messages (it does not define FixMsgIn itself: the wrapped state's handler runs and its result replaces the wrapper) and for recovery tests (C04-R1). R5: the acceptor adopts the peer's HeartBtInt(108) × second only when it is not the initiator and no override is configured. R6: the recovery state's Timeout hands on the in-session handler's result only when it is neither the in-session state nor the pending wrapper; those are replaced by the recovery state itself, resp. by a pending wrapper around it. R7: in the Timeout handlers the branch taken when a keep-alive send failed leaves through the send-failure exit on every path (the one-shot timers are re-armed only by a successful send).",
+			"R4: the pending wrapper is transparent for inbound messages (it does not define FixMsgIn itself: the wrapped state's handler runs and its result replaces the wrapper) and for recovery tests (C04-R1). R5: the acceptor adopts the peer's HeartBtInt(108) × second only when it is not the initiator and no override is configured. R6: the recovery state's Timeout hands on the in-session handler's result only when it is neither the in-session state nor the pending wrapper; those are replaced by the recovery state itself, resp. by a pending wrapper around it. R7: in the Timeout handlers the branch taken when a keep-alive send failed leaves through the send-failure exit on every path (the one-shot timers are re-armed only by a successful send). R8: the callbacks of the two event timers hand their event to the session loop with a blocking send (no select default).",
 		NotDecided: "wall-clock behaviour, timer goroutine scheduling, that timers actually fire; 'nothing sent for the interval' as a measured quantity.",
 		Rules: []RuleDef{
 			{ID: "C20-R1", Desc: "TestReqID echo binding", Min: 2, Run: c20R1},
@@ -26,6 +26,7 @@ func propC20() Property {
 			{ID: "C20-R5", Desc: "HeartBtInt adoption guard", Min: 1, Run: c20R5},
 			{ID: "C20-R6", Desc: "the recovery state's Timeout keeps the recovery state (also inside the pending wrapper)", Min: 3, Run: c20R6},
 			{ID: "C20-R7", Desc: "a failed keep-alive send ends the session", Min: 2, Run: c20R7},
+			{ID: "C20-R8", Desc: "timer events are delivered with a blocking send", Min: 2, Run: c20R8},
 		},
 	}
 }
